@@ -3,7 +3,25 @@
    state or a fresh one); the bufio.Reader pool of the CSV check is covered by the hypothesis that
    Reset discards all state.  That the caller's buffer is never written is not expressible over immutable
    lists: it is established on the implementation (hash before / after, poisoned capacity). *)
-From Verif Require Import Base.Bytes Model.Json Model.Pool Proofs.PoolP.
+From Verif Require Import Base.Bytes Model.Json Model.Pool Model.Detect Proofs.BytesP Proofs.PoolP.
+From Coq Require Import Lia.
+
+(* the model's Detect looks at the header only: inputs with the same first `limit` bytes get the same result,
+   whatever the oracle answers for opaque detectors; in particular the bytes behind the limit are irrelevant *)
+Theorem C04_depends_on_header_only :
+  forall orc l x y, hdr l x = hdr l y -> detect_path orc l x = detect_path orc l y.
+Proof. intros orc l x y H. unfold detect_path. rewrite H. reflexivity. Qed.
+Print Assumptions C04_depends_on_header_only.
+
+Theorem C04_bytes_past_the_limit_do_not_matter :
+  forall orc (l : N) p t1 t2, l <> 0%N -> (l <= N.of_nat (length p))%N ->
+    detect_path orc l (p ++ t1) = detect_path orc l (p ++ t2).
+Proof.
+  intros orc l p t1 t2 Hl Hle. apply C04_depends_on_header_only. unfold hdr.
+  destruct (N.eqb_spec l 0); [contradiction|]. rewrite !take_firstn, !firstn_app.
+  replace (N.to_nat l - length p) with 0 by lia. reflexivity.
+Qed.
+Print Assumptions C04_bytes_past_the_limit_do_not_matter.
 
 Theorem C04_reset_erases : forall s s', reset s = reset s'.
 Proof. exact reset_erases. Qed.
